@@ -1,1 +1,731 @@
 // Kani contract harnesses for /repo/parquet/src/parquet_thrift.rs (child module: sees private items via super::)
+use super::*;
+#[path = "/verif/kani/support/spec.rs"]
+mod spec;
+use spec::*;
+
+// ---------------------------------------------------------------------------------------------
+// C08: ThriftSliceInputProtocol on ARBITRARY input. Model: the protocol object is a cursor into the
+// input slice; `consumed(p)` = how far it moved. Every unit proves (i) no panic / no out-of-bounds /
+// no arithmetic overflow on any input (checked by Kani on every path), (ii) the remaining slice is
+// always a suffix of the input (pointer and length), (iii) the functional result stated below.
+// Input: fixed array of N bytes, symbolic length n <= N (nothing allocates).
+// ---------------------------------------------------------------------------------------------
+
+fn any_input<const N: usize>() -> ([u8; N], usize) {
+    let a: [u8; N] = kani::any();
+    let n: usize = kani::any();
+    kani::assume(n <= N);
+    (a, n)
+}
+
+/// bytes consumed so far; asserts that the remaining slice is a suffix of input[..n]
+fn consumed(p: &ThriftSliceInputProtocol<'_>, input: &[u8], n: usize) -> usize {
+    let rest = p.as_slice();
+    assert!(rest.len() <= n);
+    let c = n - rest.len();
+    assert!(rest.as_ptr() == input[c..].as_ptr());
+    c
+}
+
+/// ULEB128 model: Some((value mod 2^64 of the first `used` groups, used)) if a byte without
+/// continuation bit occurs in buf[at..n], else None. Groups beyond bit 63 are ignored by the model.
+fn spec_vlq(buf: &[u8], at: usize, n: usize) -> Option<(u64, usize)> {
+    let mut v = 0u64;
+    let mut i = 0;
+    while at + i < n {
+        let b = buf[at + i];
+        if 7 * i < 64 {
+            v |= ((b & 0x7f) as u64) << (7 * i);
+        }
+        if b & 0x80 == 0 {
+            return Some((v, i + 1));
+        }
+        i += 1;
+    }
+    None
+}
+
+fn unzigzag(u: u64) -> i64 {
+    // n even -> n/2 ; n odd -> -(n+1)/2, computed in 128 bits
+    let w = u as i128;
+    (if u & 1 == 0 { w / 2 } else { -((w + 1) / 2) }) as i64
+}
+
+// Contract (C08): read_byte returns Ok(first byte) and advances by one iff the input is non-empty,
+// else Err(Eof) and stays; read_i8 is the same byte as i8; read_field_header splits it into
+// (low nibble, high nibble); read_bool: 1 -> true, 0 or 2 -> false, anything else Err(InvalidBoolean)
+// (one byte consumed whenever there was one); skip_empty_struct: Ok iff the byte is 0.
+// Stub: alloc::fmt::format.
+// @unit name=thrift_read_byte_family props=C08 kind=bounded bound=input<=12_bytes fns=ThriftSliceInputProtocol::read_byte,ThriftCompactInputProtocol::read_i8,ThriftCompactInputProtocol::read_field_header,ThriftCompactInputProtocol::read_bool,ThriftCompactInputProtocol::skip_empty_struct,ThriftSliceInputProtocol::as_slice
+#[kani::proof]
+#[kani::stub(alloc::fmt::format, stub_format)]
+fn thrift_read_byte_family() {
+    let (a, n) = any_input::<12>();
+    let mut p = ThriftSliceInputProtocol::new(&a[..n]);
+    let which: u8 = kani::any();
+    match which {
+        0 => {
+            let r = p.read_byte();
+            assert!(r.is_ok() == (n >= 1));
+            if let Ok(b) = r {
+                assert!(b == a[0]);
+            } else {
+                assert!(matches!(r, Err(ThriftProtocolError::Eof)));
+            }
+        }
+        1 => {
+            let r = p.read_i8();
+            assert!(r.is_ok() == (n >= 1));
+            if let Ok(b) = r {
+                assert!(b == a[0] as i8);
+            }
+        }
+        2 => {
+            let r = p.read_field_header();
+            assert!(r.is_ok() == (n >= 1));
+            if let Ok((t, d)) = r {
+                assert!(t == a[0] % 16 && d == a[0] / 16);
+            }
+        }
+        3 => {
+            let r = p.read_bool();
+            match r {
+                Ok(v) => assert!(n >= 1 && (if v { a[0] == 1 } else { a[0] == 0 || a[0] == 2 })),
+                Err(ThriftProtocolError::Eof) => assert!(n == 0),
+                Err(ThriftProtocolError::InvalidBoolean(b)) => assert!(n >= 1 && b == a[0] && a[0] > 2),
+                Err(_) => assert!(false),
+            }
+        }
+        _ => {
+            let r = p.skip_empty_struct();
+            assert!(r.is_ok() == (n >= 1 && a[0] == 0));
+            std::mem::forget(r);
+        }
+    }
+    assert!(consumed(&p, &a, n) == if n >= 1 { 1 } else { 0 });
+    kani::cover!(which == 0 && n == 0);
+    kani::cover!(which == 3 && n == 12 && a[0] == 2);
+    kani::cover!(which == 3 && a[0] == 3 && n > 0);
+    kani::cover!(which == 4 && n == 1 && a[0] == 0);
+}
+
+// Contract (C08): read_vlq on arbitrary input: Ok(v) iff some byte without continuation bit occurs;
+// exactly the bytes up to and including it are consumed; for encodings of <= 10 bytes v is the ULEB128
+// value mod 2^64 (longer, non-canonical encodings yield an unspecified integer but neither an error nor a
+// panic); otherwise Err(Eof) with the whole input consumed. read_zig_zag / read_i64 / read_i32 / read_i16
+// return the zig-zag decoding of the same value (truncated to the target width, as the code documents by
+// `as _`); skip_vlq consumes the same bytes.
+fn read_vlq_family<const N: usize>() {
+    let (a, n) = any_input::<N>();
+    let mut p = ThriftSliceInputProtocol::new(&a[..n]);
+    let model = spec_vlq(&a, 0, n);
+    let which: u8 = kani::any();
+    let ok;
+    match which {
+        0 => {
+            let r = p.read_vlq();
+            ok = r.is_ok();
+            if let Ok(v) = r {
+                assert!(model.is_some());
+                assert!(model.unwrap().1 > 10 || v == model.unwrap().0);
+            } else {
+                assert!(matches!(r, Err(ThriftProtocolError::Eof)));
+            }
+        }
+        1 => {
+            let r = p.read_zig_zag();
+            ok = r.is_ok();
+            if let Ok(v) = r {
+                assert!(model.is_some());
+                assert!(model.unwrap().1 > 10 || v == unzigzag(model.unwrap().0));
+            }
+        }
+        2 => {
+            let r = p.read_i64();
+            ok = r.is_ok();
+            if let Ok(v) = r {
+                assert!(model.is_some());
+                assert!(model.unwrap().1 > 10 || v == unzigzag(model.unwrap().0));
+            }
+        }
+        3 => {
+            let r = p.read_i32();
+            ok = r.is_ok();
+            if let Ok(v) = r {
+                assert!(model.is_some());
+                assert!(model.unwrap().1 > 10 || v == unzigzag(model.unwrap().0) as i32);
+            }
+        }
+        4 => {
+            let r = p.read_i16();
+            ok = r.is_ok();
+            if let Ok(v) = r {
+                assert!(model.is_some());
+                assert!(model.unwrap().1 > 10 || v == unzigzag(model.unwrap().0) as i16);
+            }
+        }
+        _ => {
+            let r = p.skip_vlq();
+            ok = r.is_ok();
+        }
+    }
+    assert!(ok == model.is_some());
+    let c = consumed(&p, &a, n);
+    match model {
+        Some((_, used)) => assert!(c == used),
+        None => assert!(c == n),
+    }
+    kani::cover!(which == 0 && ok && c == 10);
+    kani::cover!(which == 0 && ok && c == N && N > 10);
+    kani::cover!(which == 0 && !ok && n == N);
+    kani::cover!(which == 1 && ok && c == 10 && a[9] == 1);
+    kani::cover!(which == 4 && ok && c == 3);
+    kani::cover!(which == 5 && ok && c == 2);
+    kani::cover!(n == 0);
+}
+// @unit name=thrift_read_vlq_family_12 props=C08 kind=bounded bound=input<=12_bytes fns=ThriftCompactInputProtocol::read_vlq,ThriftCompactInputProtocol::read_zig_zag,ThriftCompactInputProtocol::read_i16,ThriftCompactInputProtocol::read_i32,ThriftCompactInputProtocol::read_i64,ThriftCompactInputProtocol::skip_vlq timeout=480 mem=3
+#[kani::proof]
+#[kani::unwind(14)]
+fn thrift_read_vlq_family_12() {
+    read_vlq_family::<12>()
+}
+// @unit name=thrift_read_vlq_family_24 props=C08 kind=bounded bound=input<=24_bytes fns=ThriftCompactInputProtocol::read_vlq,ThriftCompactInputProtocol::read_zig_zag,ThriftCompactInputProtocol::read_i16,ThriftCompactInputProtocol::read_i32,ThriftCompactInputProtocol::read_i64,ThriftCompactInputProtocol::skip_vlq tier=thorough timeout=900 mem=4
+#[kani::proof]
+#[kani::unwind(26)]
+fn thrift_read_vlq_family_24() {
+    read_vlq_family::<24>()
+}
+
+// Contract (C08): read_bytes / skip_binary / read_string on arbitrary input: the length prefix is read as
+// read_vlq; Ok iff the prefix terminates AND the announced length fits in what is left (no wrap-around, no
+// over-read: Err(Eof) otherwise); on Ok the returned slice is exactly input[used .. used+len] (same
+// memory: pointer and length) and the cursor sits right behind it. read_string additionally requires
+// valid UTF-8 and returns the same bytes. skip_bytes(k): Ok and advance by k iff k <= remaining, else
+// Err(Eof) without moving. read_double: Ok iff 8 bytes remain; the value has exactly those bits.
+fn read_bytes_family<const N: usize>() {
+    let (a, n) = any_input::<N>();
+    let mut p = ThriftSliceInputProtocol::new(&a[..n]);
+    let which: u8 = kani::any();
+    match which {
+        0 | 1 | 2 => {
+            let model = spec_vlq(&a, 0, n);
+            let (got_ok, got_ptr, got_len) = match which {
+                0 => match p.read_bytes() {
+                    Ok(s) => (true, s.as_ptr(), s.len()),
+                    Err(e) => {
+                        assert!(matches!(e, ThriftProtocolError::Eof));
+                        (false, a.as_ptr(), 0)
+                    }
+                },
+                1 => match p.skip_binary() {
+                    Ok(()) => (true, a.as_ptr(), 0),
+                    Err(_) => (false, a.as_ptr(), 0),
+                },
+                _ => match p.read_string() {
+                    Ok(s) => (true, s.as_ptr(), s.len()),
+                    Err(_) => (false, a.as_ptr(), 0),
+                },
+            };
+            let c = consumed(&p, &a, n);
+            match model {
+                None => assert!(!got_ok && c == n),
+                Some((len, used)) => {
+                    if used <= 10 {
+                        let fits = len <= (n - used) as u64;
+                        if which != 2 {
+                            assert!(got_ok == fits);
+                        } else {
+                            assert!(!got_ok || fits);
+                        }
+                        if fits && (got_ok || which == 2) {
+                            assert!(c == used + len as usize);
+                        }
+                        if !fits {
+                            assert!(c == used);
+                        }
+                        if got_ok && which != 1 {
+                            assert!(got_len as u64 == len && got_ptr == a[used..].as_ptr());
+                        }
+                    } else {
+                        // non-canonical prefix: unspecified length, but still inside the input
+                        assert!(c >= used && c <= n);
+                    }
+                }
+            }
+            kani::cover!(which == 0 && got_ok && got_len == 3 && c == n);
+            kani::cover!(which == 0 && got_ok && got_len == 0);
+            kani::cover!(which == 0 && !got_ok && model.is_some() && model.unwrap().1 == 1);
+            kani::cover!(which == 0 && !got_ok && model.is_some() && model.unwrap().1 == 10); // huge length
+            kani::cover!(which == 1 && got_ok && c == 5);
+            kani::cover!(which == 2 && got_ok && got_len == 2);
+            kani::cover!(which == 2 && !got_ok && model.is_some() && model.unwrap().0 == 1 && n >= 2); // bad UTF-8
+        }
+        3 => {
+            let k: usize = kani::any();
+            let r = p.skip_bytes(k);
+            assert!(r.is_ok() == (k <= n));
+            assert!(consumed(&p, &a, n) == if k <= n { k } else { 0 });
+            kani::cover!(r.is_ok() && k == n);
+            kani::cover!(r.is_err() && k == usize::MAX);
+        }
+        _ => {
+            let r = p.read_double();
+            assert!(r.is_ok() == (n >= 8));
+            if let Ok(d) = r {
+                let bits = d.to_bits();
+                let j: usize = kani::any();
+                kani::assume(j < 64);
+                assert!(((bits >> j) & 1 == 1) == bit(&a, j));
+            }
+            assert!(consumed(&p, &a, n) == if n >= 8 { 8 } else { 0 });
+            kani::cover!(r.is_ok() && n == 8);
+            kani::cover!(r.is_err() && n == 7);
+        }
+    }
+}
+// @unit name=thrift_read_bytes_family_12 props=C08 kind=bounded bound=input<=12_bytes fns=ThriftSliceInputProtocol::read_bytes,ThriftCompactInputProtocol::skip_binary,ThriftCompactInputProtocol::read_string,ThriftSliceInputProtocol::skip_bytes,ThriftSliceInputProtocol::read_double timeout=480 mem=3
+#[kani::proof]
+#[kani::unwind(14)]
+fn thrift_read_bytes_family_12() {
+    read_bytes_family::<12>()
+}
+// @unit name=thrift_read_bytes_family_24 props=C08 kind=bounded bound=input<=24_bytes fns=ThriftSliceInputProtocol::read_bytes,ThriftCompactInputProtocol::skip_binary,ThriftCompactInputProtocol::read_string,ThriftSliceInputProtocol::skip_bytes,ThriftSliceInputProtocol::read_double tier=thorough timeout=900 mem=4
+#[kani::proof]
+#[kani::unwind(26)]
+fn thrift_read_bytes_family_24() {
+    read_bytes_family::<24>()
+}
+
+/// thrift compact element-type nibble -> ElementType, per the compact-protocol document (1 and 2 both mean bool)
+fn spec_element_type(nib: u8) -> Option<ElementType> {
+    match nib {
+        1 | 2 => Some(ElementType::Bool),
+        3 => Some(ElementType::Byte),
+        4 => Some(ElementType::I16),
+        5 => Some(ElementType::I32),
+        6 => Some(ElementType::I64),
+        7 => Some(ElementType::Double),
+        8 => Some(ElementType::Binary),
+        9 => Some(ElementType::List),
+        10 => Some(ElementType::Set),
+        11 => Some(ElementType::Map),
+        12 => Some(ElementType::Struct),
+        13 => Some(ElementType::Uuid),
+        _ => None,
+    }
+}
+
+// Contract (C08): read_list_begin on arbitrary input. Header byte 0 -> (Byte, 0) [documented leniency];
+// otherwise the low nibble must be a valid element type (else Err(InvalidElementType), one byte consumed);
+// a high nibble s < 15 is the size; s = 15 means a ULEB128 size follows, which must terminate (else Eof)
+// and be <= i32::MAX (else Err(IntegerOverflow)) — so the reported size is never negative and never
+// wraps. Bytes consumed: 1 or 1 + varint length.
+// @unit name=thrift_read_list_begin props=C08 kind=bounded bound=input<=12_bytes fns=ThriftCompactInputProtocol::read_list_begin,ElementType::try_from timeout=480 mem=3
+#[kani::proof]
+#[kani::unwind(14)]
+fn thrift_read_list_begin() {
+    let (a, n) = any_input::<12>();
+    let mut p = ThriftSliceInputProtocol::new(&a[..n]);
+    let r = p.read_list_begin();
+    let c = consumed(&p, &a, n);
+    if n == 0 {
+        assert!(matches!(r, Err(ThriftProtocolError::Eof)) && c == 0);
+    } else if a[0] == 0 {
+        assert!(c == 1);
+        let l = r.unwrap();
+        assert!(l.element_type == ElementType::Byte && l.size == 0);
+    } else {
+        let et = spec_element_type(a[0] & 0x0f);
+        let s = a[0] >> 4;
+        if et.is_none() {
+            assert!(matches!(r, Err(ThriftProtocolError::InvalidElementType(x)) if x == a[0] & 0x0f) && c == 1);
+        } else if s < 15 {
+            assert!(c == 1);
+            let l = r.unwrap();
+            assert!(l.element_type == et.unwrap() && l.size == s as i32);
+        } else {
+            match spec_vlq(&a, 1, n) {
+                None => assert!(matches!(r, Err(ThriftProtocolError::Eof)) && c == n),
+                Some((v, used)) => {
+                    assert!(c == 1 + used);
+                    if used <= 10 {
+                        if v <= i32::MAX as u64 {
+                            let l = r.unwrap();
+                            assert!(l.element_type == et.unwrap() && l.size as u64 == v && l.size >= 0);
+                        } else {
+                            assert!(matches!(r, Err(ThriftProtocolError::IntegerOverflow)));
+                        }
+                    } else if let Ok(l) = r {
+                        assert!(l.size >= 0);
+                    }
+                }
+            }
+        }
+    }
+    kani::cover!(n > 0 && a[0] == 0);
+    kani::cover!(n > 0 && a[0] == 0xe1);
+    kani::cover!(n > 5 && a[0] == 0xfc && c == 6);
+    kani::cover!(n > 5 && a[0] == 0xf5 && c == 6 && a[5] == 0x08); // 2^31: overflow
+    kani::cover!(n > 0 && a[0] == 0x1e);
+}
+
+fn spec_field_type(nib: u8) -> Option<FieldType> {
+    match nib {
+        0 => Some(FieldType::Stop),
+        1 => Some(FieldType::BooleanTrue),
+        2 => Some(FieldType::BooleanFalse),
+        3 => Some(FieldType::Byte),
+        4 => Some(FieldType::I16),
+        5 => Some(FieldType::I32),
+        6 => Some(FieldType::I64),
+        7 => Some(FieldType::Double),
+        8 => Some(FieldType::Binary),
+        9 => Some(FieldType::List),
+        10 => Some(FieldType::Set),
+        11 => Some(FieldType::Map),
+        12 => Some(FieldType::Struct),
+        13 => Some(FieldType::Uuid),
+        _ => None,
+    }
+}
+
+// Contract (C08): read_field_begin(last) on arbitrary input and any last field id. Low nibble 0 ->
+// (Stop, 0); low nibble 14/15 -> Err(InvalidFieldType); otherwise with delta d = high nibble: d != 0 ->
+// id = last + d computed without wrap-around (Err(FieldDeltaOverflow) if it exceeds i16::MAX); d = 0 ->
+// the id is the following zig-zag varint (truncated to i16), Eof if it does not terminate.
+// FieldIdentifier::bool_val is Ok(true)/Ok(false) exactly for the two boolean types.
+// @unit name=thrift_read_field_begin props=C08 kind=bounded bound=input<=12_bytes fns=ThriftCompactInputProtocol::read_field_begin,ThriftCompactInputProtocol::read_full_field_id,FieldType::try_from,FieldIdentifier::bool_val timeout=480 mem=3
+#[kani::proof]
+#[kani::unwind(14)]
+fn thrift_read_field_begin() {
+    let (a, n) = any_input::<12>();
+    let last: i16 = kani::any();
+    let mut p = ThriftSliceInputProtocol::new(&a[..n]);
+    let r = p.read_field_begin(last);
+    let c = consumed(&p, &a, n);
+    if n == 0 {
+        assert!(matches!(r, Err(ThriftProtocolError::Eof)) && c == 0);
+    } else {
+        let ft = spec_field_type(a[0] & 0x0f);
+        let d = a[0] >> 4;
+        match ft {
+            None => assert!(matches!(r, Err(ThriftProtocolError::InvalidFieldType(x)) if x == a[0] & 0x0f) && c == 1),
+            Some(FieldType::Stop) => {
+                let f = r.unwrap();
+                assert!(f.field_type == FieldType::Stop && f.id == 0 && c == 1);
+            }
+            Some(t) => {
+                if d != 0 {
+                    assert!(c == 1);
+                    let sum = last as i32 + d as i32;
+                    if sum <= i16::MAX as i32 {
+                        let f = r.unwrap();
+                        assert!(f.field_type == t && f.id as i32 == sum);
+                        let bv = f.bool_val();
+                        assert!(bv.is_ok() == (t == FieldType::BooleanTrue || t == FieldType::BooleanFalse));
+                        if let Ok(x) = bv {
+                            assert!(x == (t == FieldType::BooleanTrue));
+                        }
+                    } else {
+                        assert!(matches!(r, Err(ThriftProtocolError::FieldDeltaOverflow { .. })));
+                    }
+                } else {
+                    match spec_vlq(&a, 1, n) {
+                        None => assert!(matches!(r, Err(ThriftProtocolError::Eof)) && c == n),
+                        Some((v, used)) => {
+                            assert!(c == 1 + used);
+                            let f = r.unwrap();
+                            assert!(f.field_type == t);
+                            assert!(used > 10 || f.id == unzigzag(v) as i16);
+                        }
+                    }
+                }
+            }
+        }
+    }
+    kani::cover!(n > 0 && a[0] == 0x10);
+    kani::cover!(n > 0 && a[0] == 0xf1 && last == i16::MAX - 14);
+    kani::cover!(n > 0 && a[0] == 0x1f);
+    kani::cover!(n > 3 && a[0] == 0x05 && c == 3);
+    kani::cover!(n > 0 && a[0] == 0x22 && last == -5);
+}
+
+// Contract (C08): skip(field_type) for every scalar field type on arbitrary input: booleans consume
+// nothing; Byte one byte; I16/I32/I64 one varint; Double 8 bytes; Uuid 16 bytes; Binary a length-prefixed
+// string; Stop is Err(SkipUnsupportedType). Ok iff the input holds that many bytes, else Err(Eof); never
+// panics; consumed <= n. (Containers: thrift_skip_containers.)
+// @unit name=thrift_skip_scalar props=C08 kind=bounded bound=input<=20_bytes fns=ThriftCompactInputProtocol::skip,ThriftCompactInputProtocol::skip_till_depth timeout=480 mem=3
+#[kani::proof]
+#[kani::unwind(22)]
+fn thrift_skip_scalar() {
+    let (a, n) = any_input::<20>();
+    let mut p = ThriftSliceInputProtocol::new(&a[..n]);
+    let nib: u8 = kani::any();
+    kani::assume(nib <= 8 || nib == 13);
+    let ft = spec_field_type(nib).unwrap();
+    let r = p.skip(ft);
+    let c = consumed(&p, &a, n);
+    match nib {
+        0 => assert!(matches!(r, Err(ThriftProtocolError::SkipUnsupportedType(FieldType::Stop))) && c == 0),
+        1 | 2 => assert!(r.is_ok() && c == 0),
+        3 => assert!(r.is_ok() == (n >= 1) && c == if n >= 1 { 1 } else { 0 }),
+        4 | 5 | 6 => match spec_vlq(&a, 0, n) {
+            Some((_, used)) => assert!(r.is_ok() && c == used),
+            None => assert!(r.is_err() && c == n),
+        },
+        7 => assert!(r.is_ok() == (n >= 8) && c == if n >= 8 { 8 } else { 0 }),
+        13 => assert!(r.is_ok() == (n >= 16) && c == if n >= 16 { 16 } else { 0 }),
+        _ => match spec_vlq(&a, 0, n) {
+            None => assert!(r.is_err() && c == n),
+            Some((len, used)) => {
+                if used <= 10 {
+                    let fits = len <= (n - used) as u64;
+                    assert!(r.is_ok() == fits);
+                    assert!(c == if fits { used + len as usize } else { used });
+                }
+            }
+        },
+    }
+    kani::cover!(nib == 13 && r.is_ok());
+    kani::cover!(nib == 13 && r.is_err() && n == 15);
+    kani::cover!(nib == 8 && r.is_ok() && c == 20);
+    kani::cover!(nib == 6 && r.is_ok() && c == 10);
+    kani::cover!(nib == 7 && r.is_err());
+}
+
+// Contract (C08): skip(Struct | List | Set | Map) on arbitrary SHORT input: returns (Ok or Err), never
+// panics, never reads outside the input, and the recursion/loops are bounded by the input (every nesting
+// level consumes at least one byte). Bound: input <= 5 bytes and — to keep the element loops within the
+// unwinding bound — no input byte with high nibble 0xF (excludes long-form list headers: list sizes <= 14)
+// and map sizes <= 14 by the same restriction on the size varint... see bound=.
+// @unit name=thrift_skip_containers props=C08 kind=bounded bound=input<=5_bytes_every_byte<0x0f fns=ThriftCompactInputProtocol::skip,ThriftCompactInputProtocol::skip_till_depth tier=thorough timeout=900 mem=6
+#[kani::proof]
+#[kani::unwind(17)]
+fn thrift_skip_containers() {
+    let (a, n) = any_input::<5>();
+    // every byte <= 0x0e: container sizes (short-form list nibble is 0, map size varint <= 14) stay <= 14
+    let mut i = 0;
+    while i < 5 {
+        kani::assume(a[i] <= 0x0e);
+        i += 1;
+    }
+    let mut p = ThriftSliceInputProtocol::new(&a[..n]);
+    let nib: u8 = kani::any();
+    kani::assume(nib >= 9 && nib <= 12);
+    let ft = spec_field_type(nib).unwrap();
+    let r = p.skip(ft);
+    let c = consumed(&p, &a, n);
+    assert!(c <= n);
+    if r.is_ok() {
+        assert!(c >= 1);
+    }
+    kani::cover!(nib == 12 && r.is_ok() && c == 1);
+    kani::cover!(nib == 12 && r.is_ok() && c == 5);
+    kani::cover!(nib == 11 && r.is_ok() && c == 1);
+    kani::cover!(nib == 11 && r.is_ok() && c > 2);
+    kani::cover!(nib == 9 && r.is_err());
+}
+
+// ---------------------------------------------------------------------------------------------
+// C05/C08: writer -> reader round trips (sink = fixed &mut [u8], nothing allocates)
+// ---------------------------------------------------------------------------------------------
+
+// Contract (C05): for every u64 v, write_vlq(v) emits the canonical ULEB128 string (1..=10 bytes, length
+// max(1, ceil(bitlen/7)), last byte < 0x80, no trailing zero group) and read_vlq on exactly those bytes
+// returns v and consumes all of them. For every i64 x, write_zig_zag(x) then read_zig_zag returns x;
+// write_i64/i32/i16 then read_i64/i32/i16 likewise.
+// Stub: alloc::fmt::format.
+// @unit name=thrift_vlq_roundtrip props=C05,C08 kind=complete fns=ThriftCompactOutputProtocol::write_vlq,ThriftCompactOutputProtocol::write_byte,ThriftCompactInputProtocol::read_vlq timeout=480 mem=3
+#[kani::proof]
+#[kani::unwind(12)]
+#[kani::stub(alloc::fmt::format, stub_format)]
+fn thrift_vlq_roundtrip() {
+    let v: u64 = kani::any();
+    let mut buf = [0u8; 12];
+    let mut w = ThriftCompactOutputProtocol::new(&mut buf[..]);
+    let r = w.write_vlq(v);
+    assert!(r.is_ok());
+    std::mem::forget(r);
+    let len = 12 - w.writer.len();
+    let bitlen = 64 - v.leading_zeros() as usize;
+    assert!(len == if v == 0 { 1 } else { (bitlen + 6) / 7 });
+    assert!(buf[len - 1] < 0x80 && (len == 1 || buf[len - 1] != 0));
+    let mut p = ThriftSliceInputProtocol::new(&buf[..len]);
+    let got = p.read_vlq();
+    assert!(matches!(got, Ok(x) if x == v));
+    assert!(p.as_slice().is_empty());
+    kani::cover!(len == 1);
+    kani::cover!(len == 10);
+}
+
+// @unit name=thrift_zigzag_roundtrip props=C05,C08 kind=complete fns=ThriftCompactOutputProtocol::write_zig_zag,ThriftCompactOutputProtocol::write_i64,ThriftCompactOutputProtocol::write_i32,ThriftCompactOutputProtocol::write_i16,ThriftCompactInputProtocol::read_zig_zag,ThriftCompactInputProtocol::read_i64,ThriftCompactInputProtocol::read_i32,ThriftCompactInputProtocol::read_i16 timeout=480 mem=3
+#[kani::proof]
+#[kani::unwind(12)]
+#[kani::stub(alloc::fmt::format, stub_format)]
+fn thrift_zigzag_roundtrip() {
+    let x: i64 = kani::any();
+    let which: u8 = kani::any();
+    let mut buf = [0u8; 12];
+    let mut w = ThriftCompactOutputProtocol::new(&mut buf[..]);
+    let r = match which {
+        0 => w.write_zig_zag(x),
+        1 => w.write_i64(x),
+        2 => w.write_i32(x as i32),
+        _ => w.write_i16(x as i16),
+    };
+    assert!(r.is_ok());
+    std::mem::forget(r);
+    let len = 12 - w.writer.len();
+    assert!(len >= 1 && len <= 10);
+    // small magnitudes are short: |x| < 64 -> one byte
+    if x >= -64 && x < 64 {
+        assert!(len == 1);
+    }
+    let mut p = ThriftSliceInputProtocol::new(&buf[..len]);
+    match which {
+        0 => assert!(matches!(p.read_zig_zag(), Ok(y) if y == x)),
+        1 => assert!(matches!(p.read_i64(), Ok(y) if y == x)),
+        2 => assert!(matches!(p.read_i32(), Ok(y) if y == x as i32)),
+        _ => assert!(matches!(p.read_i16(), Ok(y) if y == x as i16)),
+    }
+    assert!(p.as_slice().is_empty());
+    kani::cover!(which == 0 && x == i64::MIN && len == 10);
+    kani::cover!(which == 1 && x == i64::MAX);
+    kani::cover!(which == 2 && x as i32 == i32::MIN && len == 5);
+    kani::cover!(which == 3 && x as i16 == -1 && len == 1);
+}
+
+// Contract (C05): the remaining scalar writers round-trip through their readers: write_double (all bit
+// patterns, NaN payloads included) -> read_double bit-exact in 8 bytes; write_bool -> read_bool;
+// write_i8 -> read_i8; write_bytes(s) (|s| <= 4) -> read_bytes returns the same bytes;
+// write_list_begin(t, len) (len <= i32::MAX, as thrift requires) -> read_list_begin = (t, len);
+// write_field_begin(t, id, last) (t != Stop) -> read_field_begin(last) = (t, id), for every pair of non-negative ids
+// (short delta form and full-id form); write_struct_end -> Stop; everything consumed.
+// Stub: alloc::fmt::format.
+// @unit name=thrift_scalar_roundtrip props=C05,C08 kind=bounded bound=binary_payload<=4_bytes fns=ThriftCompactOutputProtocol::write_double,ThriftCompactOutputProtocol::write_bool,ThriftCompactOutputProtocol::write_i8,ThriftCompactOutputProtocol::write_bytes,ThriftCompactOutputProtocol::write_list_begin,ThriftCompactOutputProtocol::write_field_begin,ThriftCompactOutputProtocol::write_struct_end,ThriftCompactInputProtocol::read_list_begin,ThriftCompactInputProtocol::read_field_begin timeout=480 mem=3
+#[kani::proof]
+#[kani::unwind(12)]
+#[kani::stub(alloc::fmt::format, stub_format)]
+fn thrift_scalar_roundtrip() {
+    let which: u8 = kani::any();
+    let mut buf = [0u8; 16];
+    let mut w = ThriftCompactOutputProtocol::new(&mut buf[..]);
+    match which {
+        0 => {
+            let bits: u64 = kani::any();
+            let r = w.write_double(f64::from_bits(bits));
+            assert!(r.is_ok());
+            std::mem::forget(r);
+            let len = 16 - w.writer.len();
+            assert!(len == 8);
+            let mut p = ThriftSliceInputProtocol::new(&buf[..len]);
+            assert!(matches!(p.read_double(), Ok(d) if d.to_bits() == bits));
+            assert!(p.as_slice().is_empty());
+            kani::cover!(f64::from_bits(bits).is_nan());
+        }
+        1 => {
+            let b: bool = kani::any();
+            let r = w.write_bool(b);
+            assert!(r.is_ok());
+            std::mem::forget(r);
+            let len = 16 - w.writer.len();
+            assert!(len == 1);
+            let mut p = ThriftSliceInputProtocol::new(&buf[..len]);
+            assert!(matches!(p.read_bool(), Ok(x) if x == b));
+            kani::cover!(b);
+            kani::cover!(!b);
+        }
+        2 => {
+            let b: i8 = kani::any();
+            let r = w.write_i8(b);
+            assert!(r.is_ok());
+            std::mem::forget(r);
+            let len = 16 - w.writer.len();
+            assert!(len == 1);
+            let mut p = ThriftSliceInputProtocol::new(&buf[..len]);
+            assert!(matches!(p.read_i8(), Ok(x) if x == b));
+            kani::cover!(b < 0);
+        }
+        3 => {
+            let s: [u8; 4] = kani::any();
+            let k: usize = kani::any();
+            kani::assume(k <= 4);
+            let r = w.write_bytes(&s[..k]);
+            assert!(r.is_ok());
+            std::mem::forget(r);
+            let len = 16 - w.writer.len();
+            assert!(len == 1 + k);
+            let mut p = ThriftSliceInputProtocol::new(&buf[..len]);
+            match p.read_bytes() {
+                Ok(t) => {
+                    assert!(t.len() == k);
+                    let i: usize = kani::any();
+                    kani::assume(i < k);
+                    assert!(t[i] == s[i]);
+                }
+                Err(_) => assert!(false),
+            }
+            assert!(p.as_slice().is_empty());
+            kani::cover!(k == 0);
+            kani::cover!(k == 4);
+        }
+        4 => {
+            let nib: u8 = kani::any();
+            kani::assume(nib >= 2 && nib <= 13);
+            let t = spec_element_type(nib).unwrap();
+            let n: usize = kani::any();
+            kani::assume(n <= i32::MAX as usize);
+            let r = w.write_list_begin(t, n);
+            assert!(r.is_ok());
+            std::mem::forget(r);
+            let len = 16 - w.writer.len();
+            assert!((len == 1) == (n < 15) && len <= 6);
+            let mut p = ThriftSliceInputProtocol::new(&buf[..len]);
+            match p.read_list_begin() {
+                Ok(l) => assert!(l.element_type == t && l.size as usize == n),
+                Err(_) => assert!(false),
+            }
+            assert!(p.as_slice().is_empty());
+            kani::cover!(n == 0);
+            kani::cover!(n == 14);
+            kani::cover!(n == 15);
+            kani::cover!(n == i32::MAX as usize);
+        }
+        _ => {
+            let nib: u8 = kani::any();
+            kani::assume(nib >= 1 && nib <= 13);
+            let t = spec_field_type(nib).unwrap();
+            let id: i16 = kani::any();
+            let last: i16 = kani::any();
+            // precondition from the call sites: thrift field ids are non-negative (struct definitions use
+            // 1.., last_field_id starts at 0); with negative ids the writer's wrapping delta and the reader's
+            // checked addition disagree (e.g. last = i16::MAX, id = i16::MIN)
+            kani::assume(id >= 0 && last >= 0);
+            let r = w.write_field_begin(t, id, last);
+            assert!(r.is_ok());
+            std::mem::forget(r);
+            let r = w.write_struct_end();
+            assert!(r.is_ok());
+            std::mem::forget(r);
+            let len = 16 - w.writer.len();
+            let short = (id as i32 - last as i32) >= 1 && (id as i32 - last as i32) <= 15;
+            // the short one-byte form is used whenever the delta is 1..=15 (wrapping deltas fall back to the full form)
+            assert!(!(len == 2) || short);
+            let mut p = ThriftSliceInputProtocol::new(&buf[..len]);
+            match p.read_field_begin(last) {
+                Ok(f) => assert!(f.field_type == t && f.id == id),
+                Err(_) => assert!(false),
+            }
+            match p.read_field_begin(id) {
+                Ok(f) => assert!(f.field_type == FieldType::Stop),
+                Err(_) => assert!(false),
+            }
+            assert!(p.as_slice().is_empty());
+            kani::cover!(len == 2);
+            kani::cover!(len == 5 && id == i16::MAX);
+            kani::cover!(id == last);
+            kani::cover!(last == i16::MAX && id == 0);
+        }
+    }
+}
